@@ -5,7 +5,7 @@ from . import enc, gen
 from . import stubs  # noqa
 
 AWKWARD = ['(', ')', '[', ']', '{', '}', '<', '>', '&', '"', "'", '/', '|', ',', '.', ':', ';', '-', '_', '%', 'a>b', '<x>', 'a/b', 'x&y',
-           "can't", '"q"', 'C++', '100%', '-LRB-', 'a_b', '日本', '語', 'é', '\U0001F600', 'café', 'A|B', 'x:y', '&amp;', 'a.b', '--', 'x)[conj]', 'y][conj]', 'f(x)', 'T>', '<L', 'a\\b', 'wow!', '!', '9am', 'U.S.']
+           "can't", '"q"', 'C++', '100%', '-LRB-', 'a_b', '日本', '語', 'é', '\U0001F600', 'café', 'A|B', 'x:y', '&amp;', 'a.b', '--', 'x)[conj]', 'y][conj]', 'f(x)', 'T>', '<L', 'a\\b', 'wow!', '!', '9am', 'U.S.', '_(', '_.x', '_-']
 PLAIN = ['John', 'loves', 'Mary', 'the', 'dog', 'runs', 'and', 'cat', 'quickly', 'of', 'Tokyo', 'saw']
 
 
@@ -99,6 +99,11 @@ def licensed_tree(rng, lang, n, lexicon, tokfn, words, want_unary=0.3):
                 if rs:
                     r = rng.choice(rs)
                     items[j] = (r.cat, unary(enc.enc_cat(r.cat), items[j][1], r.op_string, r.op_symbol))
+                    # the search applies unary rules to the result of a unary rule too (N -> NP -> S/(S\NP)): chains
+                    rs2 = fu(items[j][0])
+                    if rs2 and rng.random() < 0.6:
+                        r = rng.choice(rs2)
+                        items[j] = (r.cat, unary(enc.enc_cat(r.cat), items[j][1], r.op_string, r.op_symbol))
             cands = []
             for j in range(len(items) - 1):
                 rs = fb(items[j][0], items[j + 1][0])
@@ -151,6 +156,9 @@ def arbitrary_tree(rng, n, catpool, tokfn, words, labels, unary_p=0.25, top=True
     if rng.random() < unary_p and not (top and n > 1):
         lab, sym = rng.choice(labels['unary'])
         t = unary(rng.choice(catpool), t, lab, sym)
+        if rng.random() < 0.3:          # a unary step directly on a unary step
+            lab, sym = rng.choice(labels['unary'])
+            t = unary(rng.choice(catpool), t, lab, sym)
     return t
 
 
